@@ -30,6 +30,8 @@ def load_registry():
     reg = Registry()
     files = sorted(glob.glob(os.path.join(ROOT, "contracts", "*.py")))
     files.sort(key=lambda p: (0 if os.path.basename(p) == "schema.py" else 1 if os.path.basename(p).startswith("shared") else 2, p))
+    # development aid: extra contract files under development (never set by the registered commands)
+    files += [x for x in os.environ.get("PYVC_EXTRA_CONTRACTS", "").split(":") if x]
     for f in files:
         reg.load(f)
     return reg
